@@ -255,14 +255,71 @@ Definition dd_session (fix19 : bool) (ops : list ddop) : M bool :=
   end.
 
 (** ** set_attr: the attribute takes over the new value - also when it fails *)
-(* a value is a dynamically allocated / reference-counted object (string,
-   bitmap, blob): one token.  [pre_ok]/[post_ok]: results of the hooks. *)
-Definition set_attr (old : option nat) (newv : nat) (pre_ok post_ok : bool) : M (bool * option nat) :=
+(* a dynamically allocated / reference-counted value (dynamic string, bitmap,
+   blob) is one token; a static or embedded value (number, address, static
+   string) is [None].  Whether a value must be released is a property of THAT
+   value ([flags.dynstr] of the flags passed for the new value, resp. of the
+   attribute's own flags for the old one).  [pre_ok]/[post_ok]: results of the
+   hooks.  [by_old_flags] is the broken variant in which discard_new_value
+   looks at the attribute's flags, i.e. at the OLD value's. *)
+Definition set_attr (by_old_flags : bool) (old newv : option nat) (pre_ok post_ok : bool)
+  : M (bool * option nat) :=
   if pre_ok then
     free_opt old ;;;                       (* discard_value(attr) *)
-    ret (post_ok, Some newv)               (* attr->val = *pval; post_set may fail: value stays *)
+    ret (post_ok, newv)                    (* attr->val = *pval; post_set may fail: value stays *)
   else
-    free newv ;;; ret (false, old).        (* discard_new_value *)
+    (* discard_new_value(attr, flags, pval) *)
+    (if by_old_flags then match old with Some _ => free_opt newv | None => ret tt end
+     else free_opt newv) ;;;
+    ret (false, old).
+
+(** ** diskdump_read_page (diskdump.c): every exit gives the chunk back *)
+Inductive cmeth := MZlib | MLzo | MSnappy | MZstd.
+Inductive decres := DecOk | DecErr | DecWrongSize.
+
+(* flatmap_pread / fcache_pread of an uncompressed page: entry by entry, each
+   put right after the copy *)
+Fixpoint pread_pages (pol : policy) (pages : list getenv) : M bool :=
+  match pages with
+  | [] => ret true
+  | env :: rest =>
+      st <- fcache_get true pol env ;;
+      match st with
+      | GOk e => (* memcpy *) unpin e ;;; pread_pages pol rest
+      | _ => ret false
+      end
+  end.
+
+(* the decompression dispatch once the chunk [g] with the compressed data is
+   held.  [compiled]: support for the method is built in; [r]: what the
+   decompressor reports.  zlib is always built in.  [early_return]: the broken
+   variant whose zstd "wrong uncompressed size" exit returns before the common
+   fcache_put_chunk. *)
+Definition read_page_tail (early_return : bool) (g : geom) (m : cmeth) (compiled : bool) (r : decres)
+  : M bool :=
+  let ok := match r with DecOk => true | _ => false end in
+  match m with
+  | MZlib => fcache_put_chunk g ;;; ret ok
+  | _ =>
+      if compiled then
+        match m, r with
+        | MZstd, DecWrongSize =>
+            if early_return then ret false else fcache_put_chunk g ;;; ret false
+        | _, _ => fcache_put_chunk g ;;; ret ok
+        end
+      else (* "Unsupported compression method" *) fcache_put_chunk g ;;; ret false
+  end.
+
+Definition diskdump_read_page (early_return : bool) (pol : policy) (big : bool)
+           (pages : list (getenv * bool)) (compressed : bool) (m : cmeth) (compiled : bool)
+           (r : decres) : M bool :=
+  if compressed then
+    c <- fcache_get_chunk true true pol big pages ;;
+    match c with
+    | COk g => read_page_tail early_return g m compiled r
+    | _ => ret false
+    end
+  else pread_pages pol (map fst pages).
 
 (** ** what the correspondence check runs *)
 Definition run_chunk (fix41 fix47 : bool) (pol : policy) (big : bool)
